@@ -2,7 +2,7 @@
 import common, p_C14, p_xw, refcbor
 from concurrent.futures import ThreadPoolExecutor
 THEOREMS = ["C16_detect_fd", "C16_detect_fd_same_call", "C16_recover_transient", "C16_named_refuted", "C16_recover_persistent_refuted",
-            "C16_exporter_reported", "C16_exporter_retains", "C16_exporter_retains_rotation", "C16_exporter_recovers", "C16_exporter_persistent_refuted",
+            "C16_exporter_reported", "C16_exporter_retains", "C16_exporter_retains_rotation", "C16_exporter_recovers", "C16_exporter_persistent_refuted", "C16_healthy_is_fault_free", "C16_healthy_outputs",
             "C16_exporter_nonvacuous", "C16_nonvacuous"]
 VARIANT = "plain"
 
